@@ -98,7 +98,7 @@ func main() {
 
 		t.Rule("case = (command form, stream mode | configuration situation | failure kind, input file); each case is one or more runs of the real binary in a fresh sandbox; non-trivial = every case that reached a verdict (outputs compared canonically, stdout framed, exit status checked); distinct by that tuple")
 		t.Assume("equivalence of two outputs: equal pdfstrict canonical form of {Root, Info} with /ID, /CreationDate, /ModDate dropped (encrypted outputs decrypted with the CLI first); if two FILE-form runs already differ the case is inconclusive")
-		t.Assume("listing commands: stdout equal as a multiset of lines after masking the source name (file name vs stdin label) and wall-clock stamps; directory-producing commands: same multiset of canonical outputs, file names ignored (they embed the source name)")
+		t.Assume("listing commands: stdout equal as a multiset of words after masking the source name (file name vs stdin label) and wall-clock stamps; directory-producing commands: same multiset of canonical outputs, file names ignored (they embed the source name)")
 		t.Assume("failure cases: a missing file, non-PDF / empty stdin, a wrong password for an AES-256 encrypted input and an existing output without --force must make the command fail; a truncated PDF may be repaired, so only consistency (exit 0 iff a valid PDF came out) is required")
 		t.Exhaustive(e.only == nil)
 
@@ -503,10 +503,11 @@ func (e *env) runStreamForm(f sform, fixture, corpusPath string) {
 func (e *env) identity(b *box, f sform, p *product) (string, map[string]int, error) {
 	switch f.kind {
 	case textRes:
-		// compared as a multiset of lines: some listings print map-ordered entries (properties, fonts)
-		lines := strings.Split(maskSource(p.text), "\n")
-		sort.Strings(lines)
-		return strings.Join(lines, "\n"), nil, nil
+		// compared as a multiset of words: some listings print map-ordered entries, the first of them
+		// on the line of the label (info: "Properties: Owner = x" / "Properties: Project = y")
+		words := strings.Fields(maskSource(p.text))
+		sort.Strings(words)
+		return strings.Join(words, "\n"), nil, nil
 	case dirRes:
 		return strings.Join(p.files, "\n"), nil, nil
 	case jsonRes:
